@@ -52,6 +52,20 @@ func c12Births(c *ctx) {
 	for _, ymd := range [][3]int{{15, 12, 30}, {15, 12, 31}, {18, 12, 27}, {18, 12, 29}, {18, 12, 31}, {16, 1, 1}} {
 		add(ymd[0], ymd[1], ymd[2], 43200)
 	}
+	// births at 23:xx a few days either side of a Jie that itself falls at 23:xx (both ends in the last hour of their days)
+	for y := 1990; y <= 2030; y++ {
+		s0, _ := safeSolar(y, 6, 15, 12, 0, 0)
+		for i, row := range termTable(s0.GetLunar()) {
+			if len(row) < 7 || i%2 == 1 || row[1].(int) != y || row[4].(int) != 23 {
+				continue
+			}
+			j, _ := safeSolar(y, row[2].(int), row[3].(int), 12, 0, 0)
+			for _, dd := range []int{-9, -3, 2, 11} {
+				b := j.NextDay(dd)
+				add(b.GetYear(), b.GetMonth(), b.GetDay(), 82800+600+(dd+9)*97)
+			}
+		}
+	}
 	fixed := len(births)
 	for len(births) < fixed+n {
 		y := 1 + c.rng.Intn(9990)
